@@ -42,6 +42,9 @@ type space struct {
 	// how the last cancel related to the plotter position (for attributing a violation precisely)
 	cancelNote string
 	stale      int // requests issued before the last cancel that the cancel did not reach (still in the channel, or already popped)
+	// staleInFlight: the plotter is working off such a request right now (from its pop to the end of its step): what it
+	// does to the space - including the mining intent it carries - stems from before the cancel, whatever arrives meanwhile
+	staleInFlight bool
 }
 
 type info struct{ SID, State string }
@@ -380,6 +383,12 @@ func (t *tcase) next() (kp.Event, bool) {
 		if e.Kind == "gate:popped" {
 			if s := t.sp[e.SID]; s != nil && s.stale > 0 {
 				s.stale-- // this pop works off one request issued before the cancel
+				s.staleInFlight = true
+			}
+		}
+		if e.Kind == "gate:stepDone" || e.Kind == "gate:idle" {
+			for _, s := range t.sp {
+				s.staleInFlight = false
 			}
 		}
 		t.pos, t.posSID = e.Kind, e.SID
@@ -479,6 +488,11 @@ func (t *tcase) bookkeep(name, sid string, err error) {
 	if s == nil || err != nil {
 		return
 	}
+	if os.Getenv("C09_DEBUG") != "" {
+		defer func() {
+			t.logf("    model %s after %s: state=%s wanted=%v wantMine=%v inChan=%d stale=%d inflight=%v note=%q pos=%s/%s pending=%d", short(sid), name, s.state, s.wanted, s.wantMine, s.inChan, s.stale, s.staleInFlight, s.cancelNote, t.pos, short(t.posSID), t.pending)
+		}()
+	}
 	switch name {
 	case "plot", "mine":
 		s.wanted = true
@@ -490,8 +504,13 @@ func (t *tcase) bookkeep(name, sid string, err error) {
 			s.inChan++
 			t.pending++
 			t.sentSinceSelect = true
+			if s.stale > 0 || s.staleInFlight {
+				// requests of one space have the same priority: the keeper's queue may hand out this one before the
+				// ones the cancel missed, so from outside it belongs to the same indistinguishable set
+				s.stale++
+			}
 		}
-		if s.stale == 0 {
+		if s.stale == 0 && !s.staleInFlight {
 			s.cancelNote = ""
 		}
 	case "stop", "remove", "delete":
